@@ -87,6 +87,7 @@ type world struct {
 	txSigners map[string]uint64 // txs queued in the current block per signer
 	stopped   bool
 	flushing  bool
+	noDumps   bool
 
 	da    *daItem
 	daSeq int
@@ -246,6 +247,10 @@ func (w *world) endBlock(dt time.Duration) {
 		blk.AppHash = hex.EncodeToString(resp.AppHash)
 		w.count("block")
 	}
+	if err == nil {
+		fc, _ := w.faultCounters()
+		blk.Faults = fc
+	}
 	blk.Results = hex.EncodeToString(w.resH.Sum(nil))
 	blk.Events = hex.EncodeToString(w.evH.Sum(nil))
 	w.resH, w.evH = sha256.New(), sha256.New()
@@ -260,9 +265,31 @@ func (w *world) endBlock(dt time.Duration) {
 
 // ---------------------------------------------------------------- setup
 
-func newWorld(seed int64) *world {
-	h := apph.New(apph.Options{NumAccounts: 7, NumValidators: 8})
-	w := &world{h: h, r: emit.NewRand(seed), out: &childOut{Coverage: map[string]int{}, Hist: map[string]int{}},
+// worldOpts: the chain a history runs on. The compared history H always runs on the default
+// (8 validators, genesis parameters); warm-up histories use other validator counts and
+// replication factors.
+type worldOpts struct {
+	NumVals int
+	RF      string // x/da replication_factor override ("" = genesis default)
+	NoDumps bool   // no model dumps (warm replicas: the dumps call implementation functions)
+}
+
+func newWorld(seed int64, o worldOpts) *world {
+	if o.NumVals == 0 {
+		o.NumVals = 8
+	}
+	h := apph.New(apph.Options{NumAccounts: 7, NumValidators: o.NumVals})
+	if o.RF != "" {
+		p, err := h.App.DaKeeper.Params.Get(h.Ctx())
+		if err != nil {
+			panic(err)
+		}
+		p.ReplicationFactor = o.RF
+		if err := h.App.DaKeeper.Params.Set(h.Ctx(), p); err != nil {
+			panic(err)
+		}
+	}
+	w := &world{h: h, noDumps: o.NoDumps, r: emit.NewRand(seed), out: &childOut{Coverage: map[string]int{}, Hist: map[string]int{}},
 		valID: map[string]int{}, resH: sha256.New(), evH: sha256.New(), txSigners: map[string]uint64{}}
 	w.lp = lpkeeper.NewMsgServerImpl(h.App.LiquiditypoolKeeper)
 	w.sw = swapkeeper.NewMsgServerImpl(h.App.SwapKeeper)
@@ -509,23 +536,18 @@ func (w *world) opDa() {
 		}
 		// validity proofs written straight into the store (producing real zero-knowledge proofs is
 		// out of scope here; the tally only reads sender and indices)
-		thr, err := w.h.App.DaKeeper.GetZkpThreshold(w.h.Ctx(), uint64(it.n))
-		if err != nil {
-			panic(err)
-		}
+		// which indices a validator proves is drawn from the PRNG only: the history must not
+		// depend on anything the implementation computes (in particular not on the shard
+		// assignment function, which is part of what is being compared across processes)
 		for v, val := range w.vals {
 			if r.Chance(1, 4) {
 				continue // this validator submits nothing
 			}
-			assigned := datypes.ShardIndicesForValidator(sdk.ValAddress(val.Bytes), int64(thr), int64(it.n))
 			var idx []int64
-			for _, i := range assigned {
-				if r.Chance(3, 4) {
-					idx = append(idx, i)
+			for i := 0; i < it.n; i++ {
+				if r.Chance(11, 20) {
+					idx = append(idx, int64(i))
 				}
-			}
-			if r.Chance(1, 5) {
-				idx = append(idx, int64(r.Intn(it.n))) // an index that may not be assigned to this validator
 			}
 			idx = dedupe(idx) // repeated indices are C09's subject; without them both counting rules agree
 			if len(idx) == 0 {
@@ -631,11 +653,56 @@ func (w *world) opGov() {
 	}
 }
 
-// runHistory executes the history of (seed, n): n operations after a fixed setup.
-func runHistory(seed int64, n int) (*childOut, error) {
-	w := newWorld(seed)
+// warmups: what a process did before it runs the compared history H. Every warm-up is a whole
+// other chain (own genesis, own application instance, closed afterwards) driven by the same
+// operation generator, on a validator set of another size and/or another replication factor, so
+// that whatever the implementation keeps in process memory (package-level caches, pools,
+// generators) has been exercised with other parameters; the shard-index queries are the read-only
+// gRPC handlers a public node answers at any time.
+type warmup struct {
+	Name    string `json:"name"`
+	NumVals int    `json:"validators"`
+	RF      string `json:"replication_factor"`
+	Ops     int    `json:"ops"`
+	Queries bool   `json:"shard_index_queries"`
+}
+
+var warmups = []warmup{
+	{Name: "W1", NumVals: 20, RF: "", Ops: 120, Queries: true},
+	{Name: "W2", NumVals: 3, RF: "2.0", Ops: 120, Queries: true},
+	{Name: "W3", NumVals: 12, RF: "9.0", Ops: 200, Queries: false},
+}
+
+func runWarmup(wu warmup, seed int64) error {
+	w := newWorld(seed+1_000_003, worldOpts{NumVals: wu.NumVals, RF: wu.RF, NoDumps: true})
 	defer w.h.Close()
 	w.setup()
+	w.loop(wu.Ops)
+	w.endBlock(time.Second)
+	if wu.Queries {
+		qs := dakeeper.NewQueryServerImpl(w.h.App.DaKeeper)
+		for _, v := range w.vals {
+			for n := uint64(1); n <= 12; n++ {
+				if _, err := qs.ValidatorShardIndices(w.h.Ctx(), &datypes.QueryValidatorShardIndicesRequest{ValidatorAddress: v.Oper, ShardCount: n}); err != nil {
+					return fmt.Errorf("warm-up query: %w", err)
+				}
+			}
+		}
+	}
+	return nil
+}
+
+// runHistory executes the history of (seed, n): n operations after a fixed setup.
+func runHistory(seed int64, n int, o worldOpts) (*childOut, error) {
+	w := newWorld(seed, o)
+	defer w.h.Close()
+	w.setup()
+	w.loop(n)
+	w.endBlock(time.Second)
+	return w.out, nil
+}
+
+func (w *world) loop(n int) {
 	for i := 0; i < n && !w.stopped; i++ {
 		switch k := w.r.Intn(100); {
 		case k < 14:
@@ -658,6 +725,4 @@ func runHistory(seed int64, n int) (*childOut, error) {
 			w.endBlock(time.Duration(1+w.r.Intn(10)) * time.Second)
 		}
 	}
-	w.endBlock(time.Second)
-	return w.out, nil
 }
